@@ -28,6 +28,31 @@ var (
 	}
 )
 
+// look-alike pools: addresses whose textual forms are prefixes of one another
+// (5.6.7.8 / 5.6.7.80, port 70 / 700 / 7000), which only an exact key keeps apart
+var (
+	internalsAlike = []*net.UDPAddr{
+		{IP: net.IPv4(192, 168, 0, 2), Port: 123}, {IP: net.IPv4(192, 168, 0, 2), Port: 1234},
+		{IP: net.IPv4(192, 168, 0, 20), Port: 123}, {IP: net.IPv4(192, 168, 0, 20), Port: 1234},
+	}
+	remotesAlike = []*net.UDPAddr{
+		{IP: net.IPv4(5, 6, 7, 8), Port: 70}, {IP: net.IPv4(5, 6, 7, 8), Port: 700},
+		{IP: net.IPv4(5, 6, 7, 80), Port: 70}, {IP: net.IPv4(5, 6, 7, 8), Port: 7000},
+		{IP: net.IPv4(5, 6, 7, 89), Port: 700},
+	}
+)
+
+// form returns the address with its IP in the 4-byte or the 16-byte
+// representation; both denote the same IPv4 address and both reach the
+// translator through the public API.
+func form(a *net.UDPAddr, four bool) *net.UDPAddr {
+	ip := a.IP.To16()
+	if four {
+		ip = a.IP.To4()
+	}
+	return &net.UDPAddr{IP: append(net.IP(nil), ip...), Port: a.Port}
+}
+
 func udp(s string) *net.UDPAddr {
 	a, err := net.ResolveUDPAddr("udp", s)
 	if err != nil {
@@ -225,6 +250,22 @@ func runNAPT(t *rapid.T, c *ev.Case, focus string) {
 	t.Logf("NAT mapping=%s filtering=%s lifetime=%v router IPs=%v", depNames[mb], depNames[fb], life, routerIPs[:nIPs])
 	nInt := rapid.IntRange(1, 4).Draw(t, "nint")
 	nRem := rapid.IntRange(1, 5).Draw(t, "nrem")
+	internals, remotes := internals, remotes
+	if rapid.IntRange(0, 2).Draw(t, "pools") == 0 {
+		internals, remotes = internalsAlike, remotesAlike
+		c.Label("pools/look-alike")
+	}
+	mixedForms := rapid.Bool().Draw(t, "mixedForms")
+	if mixedForms {
+		c.Label("ipform/mixed")
+	}
+	pick := func(pool []*net.UDPAddr, n int, what string) *net.UDPAddr {
+		a := pool[rapid.IntRange(0, n-1).Draw(t, what)]
+		if mixedForms {
+			return form(a, rapid.Bool().Draw(t, "four"))
+		}
+		return a
+	}
 	steps := rapid.IntRange(1, 120).Draw(t, "steps")
 	refusedSeen := false
 	afterRefused := 0
@@ -237,7 +278,7 @@ func runNAPT(t *rapid.T, c *ev.Case, focus string) {
 		}
 		switch {
 		case op < inW && len(w.exts) > 0 || op < 8:
-			rem := remotes[rapid.IntRange(0, nRem-1).Draw(t, "rem")]
+			rem := pick(remotes, nRem, "rem")
 			ext, why := w.genExt(t)
 			before := c.Has("inbound/refused")
 			w.inbound(rem, ext, why)
@@ -245,8 +286,8 @@ func runNAPT(t *rapid.T, c *ev.Case, focus string) {
 				refusedSeen = true
 			}
 		case op < outW:
-			in := internals[rapid.IntRange(0, nInt-1).Draw(t, "int")]
-			rem := remotes[rapid.IntRange(0, nRem-1).Draw(t, "rem")]
+			in := pick(internals, nInt, "int")
+			rem := pick(remotes, nRem, "rem")
 			w.outbound(in, rem)
 		default:
 			fr := rapid.SampledFrom([]string{"0", "1/3", "2/3", "1-e", "1", "1+e", "3"}).Draw(t, "adv")
@@ -291,20 +332,20 @@ func runNAPT(t *rapid.T, c *ev.Case, focus string) {
 	}
 }
 
-const ruleC02 = "in-package history (1..120 events) over the NAPT translator of vnet on a virtual clock: outbound(internal i of 1..4 endpoints on 2 IPs x 2 ports, remote r of 1..5 on 3 IPs), inbound(remote, external address: learned / never allocated / other router IP / guessed port), advance by {0,1/3,2/3,1-e,1,1+e,3} lifetimes; all 9 mapping x filtering behaviours, lifetimes 3 s/30 s/3000 s, 1..2 router IPs; oracle: same key and live => same external address; new key => address unlike every live mapping's, on a router IP, port 1..65535; idle > lifetime ends the mapping, inbound never prolongs it (the model is not touched by inbound, so any refresh shows up later); exactly one lifetime idle is 'either'; non-trivial = >=2 mappings and >=1 expiry/refresh decision away from the boundary; distinct by hash of configuration + events"
+const ruleC02 = "in-package history (1..120 events) over the NAPT translator of vnet on a virtual clock: outbound(internal i of 1..4 endpoints on 2 IPs x 2 ports, remote r of 1..5 on 3 IPs; in a third of the cases pools of look-alike addresses such as 5.6.7.8/5.6.7.80 and ports 70/700/7000; in half of the cases every address is handed over in the 4-byte or the 16-byte net.IP form at random), inbound(remote, external address: learned / never allocated / other router IP / guessed port), advance by {0,1/3,2/3,1-e,1,1+e,3} lifetimes; all 9 mapping x filtering behaviours, lifetimes 3 s/30 s/3000 s, 1..2 router IPs; oracle: same key and live => same external address; new key => address unlike every live mapping's, on a router IP, port 1..65535; idle > lifetime ends the mapping, inbound never prolongs it (the model is not touched by inbound, so any refresh shows up later); exactly one lifetime idle is 'either'; non-trivial = >=2 mappings and >=1 expiry/refresh decision away from the boundary; distinct by hash of configuration + events"
 
 const ruleC03 = "same histories with the inbound side emphasised (55% inbound): forwarded iff a live mapping owns the address and the remote matches a recorded permission under the filtering behaviour, then to exactly the creator's address with source and payload unchanged and not aliased; otherwise dropped, and because the model ignores refused datagrams any side effect (permission, refresh, mapping) surfaces as a later disagreement; non-trivial = >=1 refused inbound followed by >=10 further steps and >=1 forwarded inbound; distinct by hash of configuration + events"
 
 func TestC02NAPT(t *testing.T) {
 	r := ev.New("C02", "napt-in-package", ruleC02)
-	r.Essential = []string{"mapping/reused-live", "mapping/recreated-after-expiry", "mapping/refreshed-late", "inbound/refused", "nat/EI-EI", "nat/APD-APD", "nat/AD-AD"}
+	r.Essential = []string{"mapping/reused-live", "mapping/recreated-after-expiry", "mapping/refreshed-late", "inbound/refused", "nat/EI-EI", "nat/APD-APD", "nat/AD-AD", "pools/look-alike", "ipform/mixed"}
 	r.MinForEssential = 1000
 	r.Check(t, func(t *rapid.T, c *ev.Case) { runNAPT(t, c, "C02") })
 }
 
 func TestC03NAPT(t *testing.T) {
 	r := ev.New("C03", "napt-in-package", ruleC03)
-	r.Essential = []string{"inbound/forwarded", "refused/learned", "refused/never-allocated", "refused/other-ip", "inbound/either"}
+	r.Essential = []string{"inbound/forwarded", "refused/learned", "refused/never-allocated", "refused/other-ip", "inbound/either", "pools/look-alike", "ipform/mixed"}
 	r.MinForEssential = 1000
 	r.Check(t, func(t *rapid.T, c *ev.Case) { runNAPT(t, c, "C03") })
 }
@@ -340,7 +381,7 @@ func runOneToOne(t *rapid.T, c *ev.Case, focus string) {
 			if idx < k {
 				srcIP = loc[idx]
 			}
-			src := &net.UDPAddr{IP: srcIP, Port: port}
+			src := form(&net.UDPAddr{IP: srcIP, Port: port}, rapid.Bool().Draw(t, "four"))
 			to, err := nat.Outbound(vnet.VerifNewChunkUDP(src, rem, pl))
 			c.Op("out %s>%s", src, rem)
 			t.Logf("outbound %s -> %s : %v %v", src, rem, to, err)
@@ -373,7 +414,7 @@ func runOneToOne(t *rapid.T, c *ev.Case, focus string) {
 			if idx < k {
 				dstIP = ext[idx]
 			}
-			dst := &net.UDPAddr{IP: dstIP, Port: port}
+			dst := form(&net.UDPAddr{IP: dstIP, Port: port}, rapid.Bool().Draw(t, "four"))
 			to, err := nat.Inbound(vnet.VerifNewChunkUDP(rem, dst, pl))
 			c.Op("in %s>%s", rem, dst)
 			t.Logf("inbound %s -> %s : %v %v", rem, dst, to, err)
